@@ -115,11 +115,11 @@ theorem growInsertDelayed_st (o : Obj σ α) (sp : Space σ δ) (s : St σ α δ
   exact ⟨_, _, _, rfl⟩
 
 /-- the classic loop (`delayCC_ = false`) touches the planner state only through `checkMotion`. -/
-theorem classicStep_sameBest (o : Obj σ α) (sp : Space σ δ) (ms : Array (Motion σ α)) (nmotion : Nat) (x : σ)
-    (a : Classic σ α δ) (p : Nat × Nat) : SameBest a.st (classicStep o sp ms nmotion x a p).st := by
+theorem classicStep_sameBest (o : Obj σ α) (sp : Space σ δ) (ms : Array (Motion σ α)) (nmotion : Nat) (x : σ) (inc0 : α)
+    (a : Classic σ α δ) (p : Nat × Nat) : SameBest a.st (classicStep o sp ms nmotion x inc0 a p).st := by
   unfold classicStep
   split
-  · exact SameBest.refl _
+  · split <;> exact SameBest.refl _
   · split
     · exact SameBest.refl _
     · rename_i m _
@@ -133,13 +133,13 @@ theorem classicStep_sameBest (o : Obj σ α) (sp : Space σ δ) (ms : Array (Mot
         · exact SameBest.refl _
       · exact SameBest.refl _
 
-theorem foldl_classicStep_sameBest (o : Obj σ α) (sp : Space σ δ) (ms : Array (Motion σ α)) (nmotion : Nat) (x : σ)
-    (l : List (Nat × Nat)) (a : Classic σ α δ) : SameBest a.st (l.foldl (classicStep o sp ms nmotion x) a).st := by
+theorem foldl_classicStep_sameBest (o : Obj σ α) (sp : Space σ δ) (ms : Array (Motion σ α)) (nmotion : Nat) (x : σ) (inc0 : α)
+    (l : List (Nat × Nat)) (a : Classic σ α δ) : SameBest a.st (l.foldl (classicStep o sp ms nmotion x inc0) a).st := by
   induction l generalizing a with
   | nil => exact SameBest.refl _
   | cons p rest ih =>
     simp only [List.foldl_cons]
-    exact (classicStep_sameBest o sp ms nmotion x a p).trans (ih _)
+    exact (classicStep_sameBest o sp ms nmotion x inc0 a p).trans (ih _)
 
 theorem growInsert_sameBest (o : Obj σ α) (sp : Space σ δ) (s : St σ α δ) (nmotion : Nat) (nm : Motion σ α) (dstate : σ) :
     SameBest s (growInsert o sp s nmotion nm dstate).st := by
@@ -150,7 +150,7 @@ theorem growInsert_sameBest (o : Obj σ α) (sp : Space σ δ) (s : St σ α δ)
     exact ⟨(chooseParent_sameBest sp s.motions nmotion dstate cands s []).1,
            (chooseParent_sameBest sp s.motions nmotion dstate cands s []).2⟩
   · unfold growInsertClassic
-    exact foldl_classicStep_sameBest o sp s.motions nmotion dstate _
+    exact foldl_classicStep_sameBest o sp s.motions nmotion dstate _ _
       { par := nmotion, inc := o.motionCost nm.state dstate, cost := o.combine nm.cost (o.motionCost nm.state dstate),
         valid := [], incs := [], st := s, stale := false }
 
